@@ -1,0 +1,16 @@
+//go:build !verif
+
+package server
+
+import "net"
+
+// Verification hooks (see verif_on.go). With the "verif" build tag off these
+// are empty and the instrumentation points compile to nothing.
+
+func verifPoint(s *Server, point string, args ...interface{}) {}
+
+func verifWrapConn(s *Server, client *Client, conn net.Conn) net.Conn { return conn }
+
+func verifCmdBegin(s *Server, client *Client, msg *Message) int { return 0 }
+
+func verifCmdDone(s *Server, client *Client, msg *Message, write *bool, begin int) {}
